@@ -357,6 +357,92 @@ func tablesFamily(ctx *Ctx) error {
 	if err != nil {
 		monitor("C20: the embedded normalizations.yaml does not load: "+err.Error(), TCase{Table: "norms"}, "")
 	}
+	// the built-in tables under use: they equal a fresh load of the embedded document before the coalescer is used, and
+	// still do after it has normalised a record for every entry of every list, in list order and in reverse (read
+	// through the verif-tagged accessor aucoalesce.VerifTables; nothing else can see them)
+	if err == nil {
+		diff := func() string {
+			bs, br := aucoalesce.VerifTables()
+			var ks []string
+			for k := range rtNorms {
+				ks = append(ks, k)
+			}
+			for k := range br {
+				if _, ok := rtNorms[k]; !ok {
+					ks = append(ks, k)
+				}
+			}
+			sort.Strings(ks)
+			for _, k := range ks {
+				if normsFull(br[k]) != normsFull(rtNorms[k]) {
+					return fmt.Sprintf("record type %q: built-in %s, fresh load %s", k, normsBrief(br[k]), normsBrief(rtNorms[k]))
+				}
+			}
+			var sk []string
+			for k := range sysNorms {
+				sk = append(sk, k)
+			}
+			for k := range bs {
+				if _, ok := sysNorms[k]; !ok {
+					sk = append(sk, k)
+				}
+			}
+			sort.Strings(sk)
+			for _, k := range sk {
+				if normsFull([]*aucoalesce.Normalization{bs[k]}) != normsFull([]*aucoalesce.Normalization{sysNorms[k]}) {
+					return fmt.Sprintf("syscall %q: built-in %s, fresh load %s", k, normsBrief([]*aucoalesce.Normalization{bs[k]}), normsBrief([]*aucoalesce.Normalization{sysNorms[k]}))
+				}
+			}
+			return ""
+		}
+		if d := diff(); d != "" {
+			res.Note("built-in normalisation tables differ from a fresh load before use (%s): the under-use clause is not judged", d)
+		} else {
+			var recs []string
+			var rts []string
+			for rt := range rtNorms {
+				rts = append(rts, rt)
+			}
+			sort.Strings(rts)
+			n := 0
+			for _, rt := range rts {
+				for _, nm := range rtNorms[rt] {
+					n++
+					body := "pid=1 uid=0 auid=0 ses=1"
+					for _, f := range nm.HasFields.Values {
+						body += " " + f + "=x"
+					}
+					recs = append(recs, fmt.Sprintf("type=%s msg=audit(1.000:%d): %s", rt, 5000+n, body))
+				}
+			}
+			for _, num := range []int{0, 1, 2, 3, 41, 42, 43, 49, 59, 62, 87, 90, 105, 165, 175, 313} {
+				n++
+				recs = append(recs, fmt.Sprintf("type=SYSCALL msg=audit(1.000:%d): arch=c000003e syscall=%d success=yes exit=0 a0=1 items=0 ppid=1 pid=2 auid=0 uid=0 gid=0 euid=0 tty=pts0 ses=1 comm=\"x\" exe=\"/bin/x\" key=(null)", 5000+n, num))
+			}
+			use := func(line string) {
+				m, err := auparse.ParseLogLine(line)
+				if err != nil {
+					return
+				}
+				if ev, err := aucoalesce.CoalesceMessages([]*auparse.AuditMessage{m}); err == nil {
+					aucoalesce.ResolveIDs(ev)
+				}
+			}
+			for pass := 0; pass < 2; pass++ {
+				for i := range recs {
+					if pass == 0 {
+						use(recs[i])
+					} else {
+						use(recs[len(recs)-1-i])
+					}
+				}
+			}
+			res.HistN("built-in tables under use: records normalised", 2*len(recs))
+			if d := diff(); d != "" {
+				monitor("C20: after CoalesceMessages had normalised a record for every entry of the record-type table (in list order, then in reverse) the built-in tables differ from a fresh load of the embedded document: "+d, TCase{Table: "norms", Key: "under-use"}, d)
+			}
+		}
+	}
 	for rt, norms := range rtNorms {
 		c := TCase{Table: "norm.record_types", Key: rt}
 		res.Count("norm.record_types/"+rt, true)
@@ -605,4 +691,31 @@ func c20RuleTables(ctx *Ctx, monitor func(string, TCase, string)) {
 			}
 		}
 	}
+}
+
+func normsBrief(ns []*aucoalesce.Normalization) string {
+	var parts []string
+	for _, n := range ns {
+		if n == nil {
+			parts = append(parts, "nil")
+			continue
+		}
+		parts = append(parts, fmt.Sprintf("{action=%q has_fields=%v}", n.Action, n.HasFields.Values))
+
+	}
+	return "[" + strings.Join(parts, " ") + "]"
+}
+
+// normsFull renders a list of normalisations completely (reflect.DeepEqual cannot be used: the ECS mappings hold
+// function values; the same static function prints as the same address on both sides).
+func normsFull(ns []*aucoalesce.Normalization) string {
+	var parts []string
+	for _, n := range ns {
+		if n == nil {
+			parts = append(parts, "nil")
+			continue
+		}
+		parts = append(parts, fmt.Sprintf("%#v", *n))
+	}
+	return strings.Join(parts, " | ")
 }
